@@ -974,6 +974,22 @@ theorem C09_malformed_query_400 (d : Dest) (v : DVal) (r : BindReq) (hb : r.hasB
   unfold bindBody
   rcases hm with hm | hm <;> simp [hb, hm, hq, e1, e2, e3, e4, e5, e6, e7]
 
+/-- **C09_unknown_length_like_known** (round 6) — a body of unknown length (`ContentLength = -1`) is
+    bound exactly like the same body with any non-zero declared length: same destination, same
+    status, for every destination, method, Content-Type and content.  (`BindReq` carries nothing of
+    the declared length but `hasBody`; the parsed body contents are the same bytes either way.) -/
+theorem C09_unknown_length_like_known (d : Dest) (v : DVal) (r : BindReq) (n : Nat) (hn : n ≠ 0) :
+    bind d v { r with hasBody := (BodyLen.known n).hasBody }
+      = bind d v { r with hasBody := BodyLen.unknown.hasBody }
+    ∧ bindBody d v { r with hasBody := (BodyLen.known n).hasBody }
+      = bindBody d v { r with hasBody := BodyLen.unknown.hasBody } := by
+  have : (BodyLen.known n).hasBody = BodyLen.unknown.hasBody := by
+    cases n with
+    | zero => exact absurd rfl hn
+    | succ k => rfl
+  rw [this]
+  exact ⟨rfl, rfl⟩
+
 /-! ## map destinations: later sources override only the keys they carry (round 4) -/
 
 /-- the entry of a map destination under `key` -/
@@ -1333,5 +1349,12 @@ example : flatVs (bindF .query [([], [['a','d','m','i','n']]), ([], [['1']])] []
     ∧ (bindF .query [([], [['a','d','m','i','n']])] [] exFs exVs).2 = none := by decide +kernel
 -- `lookup` WOULD find the empty key if it were asked for the empty name — the walk never asks
 example : lookup [([], [['x']])] [] = some [['x']] := by decide
+
+-- round 6: ContentLength 0 skips the body whatever it is, -1 and 17 do not
+example : (BodyLen.known 0).hasBody = false ∧ (BodyLen.known 17).hasBody = true ∧ BodyLen.unknown.hasBody = true := by decide
+example : (bind (.struct exFs) (.struct exVs) { exReq ['P','O','S','T'] mForm true with hasBody := BodyLen.unknown.hasBody }).2 = .ok
+    ∧ flatD (bind (.struct exFs) (.struct exVs) { exReq ['P','O','S','T'] mForm true with hasBody := BodyLen.unknown.hasBody }).1
+      = flatVs [.leaf (.one (.int 10)), .leaf (.one (.bool false)), .struct [.leaf (.one (.opq ['f']))], .leaf .nil] := by
+  decide +kernel
 
 end C09
